@@ -53,6 +53,36 @@ def table_cases():
                               'clock': [8, 9, 10]}],
                     'expect': {'1': [want_in, want_out], '2': [want_in, want_out]},
                     'journal_expect': [['q', [str(arg)], []]] if (ro and not present) else []})
+    out += order_cases()
+    return out
+
+
+def order_cases():
+    """several candidate keys present at once: the call's own alias first, then the fallback aliases IN THE LISTED ORDER"""
+    out = []
+
+    def site(alias, **kw):
+        d = {'kind': 'in', 'alias': alias, 'flavor': 'instance', 'capture': 'all', 'resolver': None, 'nargs': 1, 'kwnames': [],
+             'handler': '', 'runOriginal': False, 'substitute': None, 'fallbacks': None,
+             'body': [{'op': 'ret', 'e': {'t': [{'c': {'s': 'rec-' + alias}}, {'v': 'a0'}]}}]}
+        d.update(kw)
+        return d
+    for alias, fb, fbfn, want in [('Q', ['B', 'A'], False, 'B'), ('Q', ['A', 'B'], False, 'A'), ('Q', ['A', 'B'], True, 'A'),
+                                  ('Q', ['B', 'A'], True, 'B'), ('B', ['A'], False, 'B'), ('A', ['B'], False, 'A'),
+                                  ('B', ['A'], True, 'B'), ('Q', ['Z', 'B', 'A'], False, 'B'), ('C', ['B', 'A'], False, 'C'),
+                                  ('A', ['C', 'B'], True, 'A')]:
+        sites = {'rA': site('A'), 'rB': site('B'), 'rC': site('C'),
+                 'q': site(alias, fallbacks=fb, fallbacksAsFunction=fbfn, body=[{'op': 'ret', 'e': {'c': {'s': 'live'}}}])}
+        rec_script = [{'op': 'call', 's': s_, 'x': 'x' + s_, 'args': [{'c': {'i': '1'}}]} for s_ in ('rC', 'rA', 'rB')] + \
+                     [{'op': 'ret', 'e': {'c': None}}]
+        play_script = [{'op': 'call', 's': 'q', 'x': 'y0', 'args': [{'c': {'i': '1'}}]}, {'op': 'ret', 'e': {'v': 'y0'}}]
+        for cassette in ('memory', 'file', 's3'):
+            out.append({'cassette': cassette, 'classes': {'OpA': {'params': None, 'classLevel': False, 'hasExtractor': False}},
+                        'sites': sites,
+                        'runs': [{'run': 'op', 'cls': 'OpA', 'enabled': True, 'script': rec_script, 'draws': [], 'clock': [1, 2]},
+                                 {'run': 'play', 'cls': 'OpA', 'rec': 0, 'enabled': False, 'script': play_script,
+                                  'clock': [5, 6, 7]}],
+                        'expect': {'1': [['ret', '("rec-%s",1)' % want]]}, 'journal_expect': []})
     return out
 
 
@@ -105,9 +135,22 @@ class C02(RecorderProp):
         case = rg.gen_history(rng, self.OPTS)
         # replay some recordings again with the same program (idempotence)
         extra = []
-        for run in case['runs']:
-            if run['run'] == 'play' and rng.random() < 0.4:
+        plays = [run for run in case['runs'] if run['run'] == 'play' and run['rec'] >= 0]
+        for run in plays:
+            if rng.random() < 0.4:
                 extra.append(dict(run, enabled=not run['enabled'], clock=[200, 201, 202]))
+        if len({run['rec'] for run in plays}) >= 1 and case['sites'] and rng.random() < 0.5:
+            # a replay that FAILS (the program re-raises the framework's missing-key error) followed by replays of other recordings
+            sname = sorted(case['sites'])[0]
+            sp = case['sites'][sname]
+            if sp['kind'] == 'in' and sp.get('flavor') != 'property':
+                failing = [{'op': 'call', 's': sname, 'x': 'z', 'args': [{'c': {'s': 'never-recorded-%d' % i}} for i in range(sp['nargs'])]},
+                           {'op': 'reraise', 'x': 'z'}, {'op': 'ret', 'e': {'c': None}}]
+                first = plays[0]
+                extra.append({'run': 'play', 'cls': first['cls'], 'rec': first['rec'], 'enabled': False, 'script': failing,
+                              'clock': [300, 301, 302]})
+                for run in plays[-2:]:
+                    extra.append(dict(run, clock=[310, 311, 312]))
         case['runs'] += extra
         return case
 
